@@ -808,10 +808,6 @@ def do_predict(ctx, case):
     return req, compare
 
 
-KEY_FIND_NARROW = 'find-centers-narrow-label-dtype'
-KEY_FIND_LISTS = 'find-centers-python-lists'
-
-
 def do_find(ctx, case):
     from enspara.cluster.util import find_cluster_centers
     a_dt, d_dt = case.get('a_dtype', 'int64'), case.get('d_dtype', 'float64')
@@ -855,11 +851,7 @@ def do_find(ctx, case):
                   (['find:scale=2^%d' % case['scale_exp']] if case.get('scale_exp') else []) +
                   (['find:near-ties'] if 'P' in case else []))
     if not mismatch:
-        key = None
-        if a_dt == 'list':
-            key = KEY_FIND_LISTS
-        elif a_dt != 'int64' and expect and max(expect) > np.iinfo(a_dt).max:
-            key = KEY_FIND_NARROW       # center_inds inherits the labels' dtype
+        key = None      # (narrow label dtypes and python lists were findings once; fixed in /repo)
         if 'error' in out:
             ctx.violation('find_cluster_centers raised %s on valid input (labels %s, distances %s)'
                           % (out.get('text', out['error']), a_dt, d_dt), case, key=key)
